@@ -22,7 +22,7 @@ var c12Mixed = []rune("aé€😀bñ漢𝄞c")
 var c12Ascii = []rune("abcdefghi")
 
 var c12Subjects = []string{"array", "objarray", "nested", "ascii", "mixed", "number", "object", "null"}
-var c12Forms = []string{"field", "current", "dot-k", "index0", "pipe0", "flatten", "paren"}
+var c12Forms = []string{"field", "current", "dot-k", "index0", "pipe0", "flatten", "paren", "then-reverse", "then-step2", "multi"}
 
 func init() {
 	core.Register(&core.Check{
@@ -299,6 +299,55 @@ func c12Build(p map[string]any) (expr string, doc any, exp expectation, abstain 
 			want = elem(idx[0])
 		} else {
 			want = nil
+		}
+	case "then-reverse", "then-step2":
+		// a second, stepped slice inside the first one's right-hand side: applied to every element of an array slice,
+		// to the sliced string of a string slice
+		second := "[::-1]"
+		if form == "then-step2" {
+			second = "[::2]"
+		}
+		expr, doc = "x"+sl+second, map[string]any{"x": subject}
+		switch {
+		case isArray:
+			out := []any{}
+			if subj == "nested" {
+				for _, i := range idx {
+					if form == "then-reverse" {
+						out = append(out, []any{core.Norm(int64(i + 100)), core.Norm(int64(i))})
+					} else {
+						out = append(out, []any{core.Norm(int64(i))})
+					}
+				}
+			}
+			want = out
+		case isString:
+			rs := []rune(sliced.(string))
+			var out []rune
+			if form == "then-reverse" {
+				for i := len(rs) - 1; i >= 0; i-- {
+					out = append(out, rs[i])
+				}
+			} else {
+				for i := 0; i < len(rs); i += 2 {
+					out = append(out, rs[i])
+				}
+			}
+			want = string(out)
+		default:
+			want = nil
+		}
+	case "multi":
+		// two slices side by side and one on the current node inside a multi-select
+		expr, doc = "x.["+sl+", [::-1]] | [0]", map[string]any{"x": subject}
+		if subject == nil {
+			want = nil
+		} else {
+			want = sliced
+			if isArray {
+				// a bare array slice is a projection: nulls are omitted (there are none here)
+				want = sliced
+			}
 		}
 	case "flatten":
 		expr, doc = "x"+sl+"[]", map[string]any{"x": subject}
